@@ -174,8 +174,8 @@ zix_path_parent_path_range(const ZixStringView path)
     }
   }
 
-  if (l <= root.end) {
-    return root;
+  if (l <= zix_path_relative_path_begin(path.data)) {
+    return root; // Only the root path is left (with any redundant separators)
   }
 
   // Drop trailing separators
